@@ -1,11 +1,14 @@
 #!/bin/bash
-# Run once after a fresh restore, offline: generate go.mod, build overlaygen, pre-build every check binary
-# (warms the Go build cache so quick commands only re-link when /repo changed).
+# Run once after a fresh restore, offline: generate go.mod, build overlaygen, pre-build the binary of every
+# check registered in MANIFEST.json (warms the Go build cache so quick commands only re-link when /repo changed).
+# A check that does not build here reports HARNESS-UNBOUND (exit 2) from its own command; setup itself only
+# fails if the core tooling cannot be built.
 set -uo pipefail
 . /verif/bin/env.sh
 /verif/bin/gen_gomod.sh || exit 1
 (cd /verif/tools/overlaygen && go build -o $VERIF_BUILD/bin/overlaygen .) || exit 1
-rc=0
-ls /verif/harness/checks | xargs -P 4 -I{} bash -c 'VERIF_BUILD_ONLY=1 /verif/check {} quick >/dev/null 2>&1 || echo "setup: build of {} failed"' | tee $VERIF_BUILD/setup.log
-grep -q failed $VERIF_BUILD/setup.log && rc=1
-exit $rc
+ids=$(python3 -c "import json;print(' '.join(c['property_id'] for c in json.load(open('/verif/MANIFEST.json'))['checks']))")
+: > $VERIF_BUILD/setup.log
+for id in $ids; do echo $id; done | xargs -P 4 -I{} bash -c 'VERIF_BUILD_ONLY=1 /verif/check {} quick >/dev/null 2>&1 || echo "setup: warning: build of {} failed" >> /verif/.build/setup.log'
+cat $VERIF_BUILD/setup.log
+exit 0
